@@ -42,6 +42,7 @@ type fakeModify struct {
 	failSendAfter int
 	sends         int
 	gid           string
+	cancelled     bool
 }
 
 func (f *fakeModify) Context() context.Context { return f.ctx }
@@ -65,7 +66,13 @@ func (f *fakeModify) Recv() (*spb.ModifyRequest, error) {
 		return nil, io.EOF
 	}
 	if m == nil {
-		return nil, status.Error(13, "transport failure")
+		f.mu.Lock()
+		c := f.cancelled
+		f.mu.Unlock()
+		if c {
+			return nil, status.Error(1, "context canceled")
+		}
+		return nil, status.Error(14, "transport failure")
 	}
 	return m, nil
 }
@@ -288,7 +295,11 @@ func (h *SrvH) Close(c int, mode string) MsgOutcome {
 		return MsgOutcome{Ended: true}
 	}
 	switch mode {
-	case "fail":
+	case "fail", "cancel":
+		f.mu.Lock()
+		f.failSendAfter = f.sends // the client is gone: nothing more can be written to it
+		f.cancelled = mode == "cancel"
+		f.mu.Unlock()
 		select {
 		case f.in <- nil:
 		case <-time.After(stepTimeout):
@@ -307,6 +318,82 @@ func (h *SrvH) Close(c int, mode string) MsgOutcome {
 	}
 	if !waitPump(f.gid) {
 		o.Hang = true
+	}
+	o.Resps = f.take()
+	return o
+}
+
+// readerSettled reports whether the receive loop of the Modify RPC that ran in goroutine gid has
+// exited or is parked for good (blocked handing a result to a pump that no longer exists, or
+// waiting in Recv).
+func readerSettled(gid string) bool {
+	buf := make([]byte, 4<<20)
+	n := runtime.Stack(buf, true)
+	marker := "in goroutine " + gid + "\n"
+	for _, g := range strings.Split(string(buf[:n])+"\n", "\n\n") {
+		if !strings.Contains(g, "(*Server).Modify.func1") || !strings.Contains(g+"\n", marker) {
+			continue
+		}
+		m := gorHeader.FindStringSubmatch(g)
+		if m == nil {
+			return false
+		}
+		return strings.HasPrefix(m[1], "chan send") || strings.HasPrefix(m[1], "chan receive")
+	}
+	return true
+}
+
+// CutMid sends m on session c while the client disappears part-way through the answers: the
+// transport accepts j more responses and then fails (mode "fail") or reports cancellation
+// (mode "cancel"). It returns the responses that got through and how the RPC ended.
+func (h *SrvH) CutMid(c int, m *spb.ModifyRequest, j int, mode string) MsgOutcome {
+	f := h.sess[c]
+	if f == nil || f.ended {
+		return MsgOutcome{Ended: true, Err: errors.New("no such session")}
+	}
+	f.mu.Lock()
+	f.failSendAfter = f.sends + j
+	f.cancelled = mode == "cancel"
+	f.mu.Unlock()
+	select {
+	case f.in <- m:
+	case <-time.After(stepTimeout):
+		return MsgOutcome{Hang: true}
+	}
+	o := MsgOutcome{}
+	select {
+	case err := <-f.done:
+		o.Ended, o.Err = true, err
+		f.ended = true
+	case <-f.ready:
+		// every response fitted: the batch was answered in full; the client goes away now
+		select {
+		case f.in <- nil:
+		case <-time.After(stepTimeout):
+			return MsgOutcome{Hang: true}
+		}
+		select {
+		case err := <-f.done:
+			o.Ended, o.Err = true, err
+			f.ended = true
+		case <-time.After(stepTimeout):
+			o.Hang = true
+		}
+	case <-time.After(stepTimeout):
+		o.Hang = true
+	}
+	// the receive loop may still be programming the operation it had in hand
+	for dl := time.Now().Add(stepTimeout); !readerSettled(f.gid); {
+		if time.Now().After(dl) {
+			o.Hang = true
+			break
+		}
+		time.Sleep(50 * time.Microsecond)
+	}
+	// release a receive loop that came back to Recv
+	select {
+	case f.in <- nil:
+	case <-time.After(2 * time.Millisecond):
 	}
 	o.Resps = f.take()
 	return o
